@@ -78,6 +78,10 @@ CLAIMED = {
          "Machine-checked proof of C20_name_layout, C20_claim_on_setup, C20_claim_addressing, C20_responder, C20_ignores_others, C20_ignores_other_groups, C20_answers, C20_software_ident, C20_units_exact, C20_source_address, C20_unknown_skipped, C20_units_order, C20_factory_known, C20_setup_addressing; tied to the code by random and boundary NAME field values (including out-of-range ones, which the builder masks), all own addresses, requests for the three answered groups and others with matching / foreign / global destinations and short payloads, driver lists over the 8 known and several unknown (vendor, product) pairs with and without sa override and timeout, construction + clone of each, and the first-cycle set-up frames observed on the bus.",
          "The TimeDate answer's payload is the wall clock and is compared by identifier and length only. TOML parsing (serde/toml) is trusted and exercised only through the shipped file and the harness's generated files. One defect fixed (ECM vendor string), one recorded finding (encoder unit address outside 0x6A..0x6D aborts).",
          "DESIGN.md section 4 C20"),
+ "C16": ("Lean 4 invariants over the Runtime task-system model whose scheduling programs (micro-operations of schedule_io_sub/io_pub/net_service and the call order of glonaxd's run()) are REGENERATED from the source on every run: safety (every spawned task is notifiable) by induction over all interleavings of main micro-steps, the request and task polls for any number of networks; termination under fair polling by a rank argument; exactly-once teardown and quiescence by a counting invariant + differential runs of the real Runtime with the request injected at every scheduling point (hook verif_sched), after scheduling, and through a real SIGTERM, with stub services and with the real NetworkAuthority on emulated buses",
+         "Machine-checked proof of C16_all_notified, C16_joins_under_fair_polling, C16_exits, C16_teardown_exactly_once, C16_quiescent, C16_all_spawned_partial, C16_glonaxd_tasks, C16_teardown_frames, C16_calls_safe (decided on the regenerated programs), C16_startup_window (the recorded finding, proved as a theorem); tied to the code by the extractor (operation order: subscribe / construct / guard / spawn, and each spawned task's setup-select-teardown shape) and by running the real Runtime on current-thread and multi-thread tokio runtimes with 0-3 networks and the request at every (point, call) pair, idle and mid command burst, directly and via SIGTERM; observed setup / teardown calls per service, join within 1.5 s, silence afterwards, reset frames per hydraulic unit on the bus.",
+         "PARTIAL: 'exits well inside the supervisor's 5 s' is a wall-clock statement; the theorems give termination under fair scheduling (tokio's fairness and the handlers returning are assumed), the 1 s bound is MEASURED on every run. tokio broadcast semantics (a receiver subscribed after a send does not see it; is_empty on main's receiver) are modelled and exercised through the hook. One defect fixed (subscribe after guard in schedule_net_service), one recorded finding (start-up window).",
+         "DESIGN.md section 4 C16"),
 }
 NOT_YET = "check not built yet in this round (planned: Lean model + correspondence, see DESIGN.md section 4)"
 
@@ -106,7 +110,7 @@ m = {
   "guard": "cargo feature `verif` of crate glonax (glonax-runtime)",
   "enable": "the harness depends on glonax with features=[\"verif\"]; real binaries: cargo build --features glonax/verif",
   "baseline_off_cmd": "cd /repo && cargo test --workspace --no-fail-fast --offline",
-  "source_commits": ["3918635", "6cbc8b2"],
+  "source_commits": ["3918635", "6cbc8b2", "2c3a3ba"],
   "add_only": True,
  },
  "engines": [{
